@@ -58,6 +58,7 @@ func c06(c *Ctx) {
 	c06Channels(c)
 	c06Regex(c)
 	c06Wiring(c)
+	c06FieldAccessor(c)
 }
 
 func c06Bus(c *Ctx) {
@@ -747,4 +748,61 @@ func c06RecvField(v ssa.Value, fn *ssa.Function) (string, bool) {
 		return "", false
 	}
 	return fieldNameOf(fa), true
+}
+
+// c06FieldAccessor: the filter decides on e.Get(field). The admission rule is stated on the event's category/service
+// string, with a missing or non-string value counting as the empty string: every value Get returns is the stored value
+// asserted to string, or "". A textual rendering of other values (fmt.Sprint, string(bytes)) makes events with such
+// values match expressions they must not match, and stop matching those that match the empty string.
+func c06FieldAccessor(c *Ctx) {
+	p := c.P
+	const rule = "filter-field-string-or-empty"
+	get := p.Method("event", "Event", "Get")
+	if !c.Anchor(get != nil && get.Blocks != nil, rule, "(event.Event).Get") {
+		return
+	}
+	var judge func(v ssa.Value, fn *ssa.Function, depth int) (bool, string)
+	judge = func(v ssa.Value, fn *ssa.Function, depth int) (bool, string) {
+		for _, lf := range leaves(v) {
+			if s, ok := ConstString(lf); ok {
+				if s == "" {
+					continue
+				}
+				return false, fmt.Sprintf("the constant %q", s)
+			}
+			switch x := lf.(type) {
+			case *ssa.Extract:
+				if ta, ok := x.Tuple.(*ssa.TypeAssert); ok && x.Index == 0 && ta.CommaOk && types.TypeString(ta.AssertedType, nil) == "string" {
+					continue
+				}
+			case *ssa.TypeAssert:
+				if types.TypeString(x.AssertedType, nil) == "string" {
+					continue
+				}
+			case *ssa.Call:
+				// a helper of the same package judged the same way
+				if hf := x.Call.StaticCallee(); hf != nil && InRepo(hf) && hf.Blocks != nil && depth < 2 && hf.Signature.Results().Len() == 1 {
+					ok := true
+					why := ""
+					for _, r := range Returns(hf) {
+						if o, w := judge(RetVals(r)[0], hf, depth+1); !o {
+							ok, why = false, w
+						}
+					}
+					if ok {
+						continue
+					}
+					return false, why
+				}
+			}
+			return false, RenderN(lf, 3)
+		}
+		return true, ""
+	}
+	for i, r := range Returns(get) {
+		ok, why := judge(RetVals(r)[0], get, 0)
+		c.Check(ok, rule, fmt.Sprintf("Event.Get return[%d]", i), p.InstrPos(r), "the stored value asserted to string, or the empty string",
+			"Event.Get, on which the category/service filters decide, can return "+why+" for a value that is not a string: such an event is matched on a textual rendering instead of the empty string, so it is admitted by expressions it must not match and refused by those matching the empty string")
+	}
+	c.Floor(rule, 2, "the not-found/not-a-string arm and the string arm")
 }
